@@ -468,8 +468,13 @@ def tagManifest (cx : Ctx Body Dig) (p : Prof) (c : Option (Corrupt Dig)) (g : R
   let o := fetchManifest cx p c g rs repo d
   match o.res with
   | .body b _ =>
-    let o2 := putManifest cx p o.reg o.rs repo d b (.tag t) false
-    { o2 with trace := o.trace ++ o2.trace }
+    -- the stream is not a built-in reader, so with the (default) auth client the manifest is
+    -- first buffered through a verifying memory store (`push`, "prevent double reading"):
+    -- a descriptor the bytes do not match fails here, before any PUT
+    if cx.len b ≠ d.size ∨ cx.H b ≠ d.dig then { o with res := .err .contentMismatch }
+    else
+      let o2 := putManifest cx p o.reg o.rs repo d b (.tag t) false
+      { o2 with trace := o.trace ++ o2.trace }
   | _ => o
 
 /-- `Repository.delete`. -/
